@@ -224,6 +224,22 @@ claim('C09',
                     'Known finding F-C09-01 (native-operand OP_EQ/OP_NE, pinned by a test).',
       '§7 C09')
 
+claim('C08',
+      'TLA+ specs XlValues (ToNum / ToText / arithmetic), MC_C08 (spelling tags with the law that every spelling denotes the same '
+      'number), XlSig witnesses, XlRegistry (registry / evaluator namespace snapshots); TLC enumerates witness x numeric position x '
+      'spelling, bad-text injections, the scalar type matrix, and all registry histories; replayed through direct calls and '
+      'formulas (literal and referenced cell)',
+      'Every witness of XlSig plus witnesses holding 0 and 1 x every numeric parameter position x 12 spellings (int, float, numpy '
+      'scalar, Number object, decimal text, scientific text, Text object, boolean/Boolean, None/BLANK): the result must equal the '
+      'native-spelling result; TLC shows (ASSUME) that every generated spelling denotes the same number under ToNum. Non-numeric text '
+      'in every numeric position must give #VALUE!; the 11x11 scalar matrix x arithmetic operators and & is compared with the spec '
+      'values ("3"+1=4, TRUE+1=2, blank+1=1, 1&TRUE="1TRUE"); numbers and booleans as text arguments; 365 function-name spellings '
+      '(lower, capitalised, _xlfn. prefixes); all 1720 registry histories (Register / NewEvaluator / Call) of length <= 5 with user '
+      'functions defined through xl.register + validate_args.',
+      COMMON_NOTE + ' Left open: visibility of a function registered after the evaluator was created, text with surrounding blanks, '
+                    'currency/percent/date-looking text, "true"/"false" text in numeric positions.',
+      '§7 C08')
+
 ALL = ['C%02d' % i for i in range(1, 21)]
 
 
